@@ -18,7 +18,7 @@ func registerC16() {
 		ID:    "C16",
 		Level: "exploration",
 		Rule: "PRNG streams rich in unknown messages, unknown fields of known messages and developer fields, in five variants (intact, truncated at a PRNG offset, file CRC " +
-			"corrupted, data record on an undefined local type, a file type without container after a file_id with unlisted fields); each decoded under all 8 combinations of {logger, unknown fields, unknown messages} through a counting reader " +
+			"corrupted, data record on an undefined local type, a file type without container after a file_id with unlisted fields); each decoded under all 8 combinations of {logger, unknown fields, unknown messages} (options given in varying order, one of them sometimes twice) through a counting reader " +
 			"and a logger that formats every argument; decoded content, error text and bytes consumed must be identical across the 8 runs, the lists absent when their option is " +
 			"off, sorted, and equal to the model's counts (failing streams: at least the completed records, at most completed + the record in flight); family chains: 2-3 such streams concatenated and decoded by DecodeChained under the 8 option sets: every File of the chain must carry exactly its own file's lists; non-trivial: the model " +
 			"expects at least one unknown message and one unknown field; distinct by stream digest",
@@ -178,17 +178,8 @@ func c16Case(c *lib.Ctx, idx uint64) {
 	chunker := []lib.Chunker{{Kind: "whole"}, {Kind: "one"}, {Kind: "greedy"}, {Kind: "fixed", Size: 7}}[idx/68%4]
 	var all [8]obs
 	for mask := 0; mask < 8; mask++ {
-		var opts []fit.DecodeOption
 		lg := &countingLogger{}
-		if mask&1 != 0 {
-			opts = append(opts, fit.WithLogger(lg))
-		}
-		if mask&2 != 0 {
-			opts = append(opts, fit.WithUnknownFields())
-		}
-		if mask&4 != 0 {
-			opts = append(opts, fit.WithUnknownMessages())
-		}
+		opts := optionList(mask, lg, idx/3+uint64(mask)) // order and repetition of options vary
 		r := lib.NewReader(b, chunker)
 		var f *fit.File
 		var derr error
@@ -369,16 +360,7 @@ func c16Chain(c *lib.Ctx, idx uint64) {
 	}
 	c.SetInflight(chain)
 	for mask := 0; mask < 8; mask++ {
-		var opts []fit.DecodeOption
-		if mask&1 != 0 {
-			opts = append(opts, fit.WithLogger(&countingLogger{}))
-		}
-		if mask&2 != 0 {
-			opts = append(opts, fit.WithUnknownFields())
-		}
-		if mask&4 != 0 {
-			opts = append(opts, fit.WithUnknownMessages())
-		}
+		opts := optionList(mask, &countingLogger{}, idx/3+uint64(mask))
 		var files []*fit.File
 		var err error
 		o := lib.Guard(func() { files, err = fit.DecodeChained(lib.NewReader(chain, lib.Chunker{Kind: "whole"}), opts...) })
